@@ -491,6 +491,17 @@ M("c02-inf-sign-swapped", "C02", "json_object.c",
 M("c02-benign-isinf-by-compare", "C02", "json_object.c",
   "\telse if (isinf(jsodbl->c_double))\n",
   "\telse if (jsodbl->c_double == HUGE_VAL || jsodbl->c_double == -HUGE_VAL)\n", expect="silent")
+M("c02-nozero-through-exponent", "C02", "json_object.c",
+  "\t\t\tfor (q = p; is_plain_digit(*q); q++)\n",
+  "\t\t\tfor (q = p; *q; q++)\n", needle="C02.R6")
+M("c02-nozero-keeps-no-digit", "C02", "json_object.c",
+  "\t\t\tif (*p != 0)\n\t\t\t\tp++;\n\t\t\tif (p != q)",
+  "\t\t\tif (p != q)", needle="C02.R6")
+M("c02-dotzero-on-exponent", "C02", "json_object.c",
+  "\t\t    strchr(buf, 'e') == NULL && /* Not scientific notation */\n", "", needle="C02.R6")
+M("c02-benign-nozero-rewrite", "C02", "json_object.c",
+  "\t\t\tif (p != q)\n\t\t\t\tmemmove(p, q, strlen(q) + 1);\n\t\t\tsize = (int)strlen(buf);\n",
+  "\t\t\tmemmove(p, q, strlen(q) + 1);\n\t\t\tsize = (int)((p - buf) + strlen(p));\n", expect="silent")
 M("c02-benign-escape-reorder", "C02", "json_object.c",
   "\t\t\tif (c == '\\b')\n\t\t\t\tprintbuf_memappend(pb, \"\\\\b\", 2);\n\t\t\telse if (c == '\\n')\n\t\t\t\tprintbuf_memappend(pb, \"\\\\n\", 2);",
   "\t\t\tif (c == '\\n')\n\t\t\t\tprintbuf_memappend(pb, \"\\\\n\", 2);\n\t\t\telse if (c == '\\b')\n\t\t\t\tprintbuf_memappend(pb, \"\\\\b\", 2);", expect="silent")
